@@ -45,6 +45,56 @@ TECH = ("bounded model checking of the compiled Rust code: Kani 0.68 proof harne
         "natively via Kani concrete playback")
 
 PROPS = {
+    "C01": dict(
+        design_ref="DESIGN.md 5.1",
+        level_text="The real track writer is run from its real initial state over every history of K<=2 (quick) / K<=3 (thorough) write_sample "
+                   "calls per payload-length vector, with payload bytes, durations, rendering offsets, sync flags and both timescales symbolic, so "
+                   "every interleaving of chunk-flush / fixed-to-variable stsz / lazy ctts+stss decisions is inside one query; the produced tables are "
+                   "interpreted by the ISO 8.6/8.7 semantics (additive walks) and must mean exactly the samples written, with the chunk bytes at the "
+                   "recorded offsets. Reading such tables back is decided by C03 for every table shape up to 4 samples; t_h01e2e additionally runs the "
+                   "real lookups on the writer's own tables. Mp4Writer: symbolic track id, rejected calls leave every piece of writer state unchanged.",
+        level_note="Bounded: K<=3 samples, payload <= 2 bytes, durations < 2^30 (u32 chunk_duration overflow is C17's), <= 2 tracks. "
+                   "Composition with C03 (lookup) and C04 (table codecs) instead of reopening the produced bytes: " + GLUE,
+        bounds="histories of K<=2 (quick) / K<=3 (thorough) samples from the initial state, every media kind at K=1, payload lengths in {0,1,2}, "
+               "durations < 2^30, timescales >= 1, i32 offsets, both sync values; Mp4Writer with 0..2 tracks and a symbolic track id",
+        outside="longer histories (an inductive step over arbitrary writer states is not built), reopening the bytes with Mp4Reader::read_header, samples larger than 2 bytes",
+        assumptions=COMMON_ASSUME + ["durations < 2^30 per sample", "the output stream is an in-memory cursor with room"],
+    ),
+    "C02": dict(
+        design_ref="DESIGN.md 5.2",
+        level_text="Table consistency is asserted on the writer state after every history of C01's space (size / time / composition / chunk tables "
+                   "each account for exactly K samples, sync numbers strictly increasing in range, chunks inside the written media data, disjoint "
+                   "and increasing, mdhd duration = sum); track-header duration within one tick is decided without division on symbolic "
+                   "timescales and durations; the top level of a zero-track file (ftyp, mdat, moov) is walked byte by byte by harness-side "
+                   "code for symbolic brands / version / timescale.",
+        level_note="Byte-level tiling only for the zero-track writer (with a track the whole pipeline does not finish); per-container size identities "
+                   "come from C04 (write_box returns box_size() == bytes written, header size == that). Durations and timescales < 2^20 in h02dur. " + GLUE,
+        bounds="K<=2 (quick) / K<=3 (thorough) samples per history, payload lengths 0..2, durations < 2^30 (< 2^20 with timescales < 2^20 in the one-tick check), 0..2 compatible brands",
+        outside="byte-level walk of a file that has tracks; several tracks; histories longer than 3 samples",
+        assumptions=COMMON_ASSUME + ["durations < 2^30 per sample"],
+    ),
+    "C04": dict(
+        design_ref="DESIGN.md 5.4",
+        level_text="For every leaf/table box type and every shape (version, flag-gated optional fields, list lengths 0..2, string lengths 0..3) a value "
+                   "with all fields symbolic within wire width is encoded with the real write_box into a buffer followed by symbolic sibling bytes, the "
+                   "header is re-read with the real BoxHeader::read and the box decoded with the real read_box: returned count == box_size() == bytes "
+                   "advanced, header type and size, cursor exactly at the box end, decoded value == original.",
+        level_note="Bounded by the shape list (coverage.families / samples); boxes < 4 GiB; containers see level_note in evidence. Trusted: Kani/CBMC/CaDiCaL, derived PartialEq of the box types.",
+        bounds="list lengths 0..2, strings 0..3 ASCII bytes, NAL units <= 4 bytes, tfhd: all 32 optional-field combinations, trun: all 64 flag combinations x 0..2 samples (thorough; quick = covering subset)",
+        outside="values not representable on the wire (version-0 times >= 2^32, flags >= 2^24, strings with NUL), IlstBox (HashMap), boxes >= 4 GiB (C13), deep containers",
+        assumptions=COMMON_ASSUME + ["field values within wire width (kani::assume per field; listed in common/boxes.rs)"],
+    ),
+    "C05": dict(
+        design_ref="DESIGN.md 5.5",
+        level_text="Same shape space as C04, different oracle: the bytes the real write_box produces are compared, at a symbolic byte index, with an "
+                   "independent reference encoder written from ISO/IEC 14496-12/-14/-15/-1/-3, 3GPP TS 26.245 and the VP9 binding (common/boxes.rs); "
+                   "together with C04's round trip this also decides that reference bytes decode to the same fields. Alternative wire forms (64-bit "
+                   "header, padded descriptor lengths, meta without version/flags) are decoded from reference bytes directly.",
+        level_note="Trusted: the reference encoders (validated natively against the repository's canned files by bin/selftest), Kani/CBMC/CaDiCaL. Reserved bits of hvcC are masked (fields, not reserved bits, are the property).",
+        bounds="as C04",
+        outside="as C04; AudioSpecificConfig object types >= 31 and frequency index 15 in the encoder direction",
+        assumptions=COMMON_ASSUME + ["field values within wire width"],
+    ),
     "C03": dict(
         design_ref="DESIGN.md 5.3",
         level_text="Mp4Track's lookup code (sample_offset, sample_size, sample_time, rendering offset, sync, read_sample, sample_count) is "
@@ -60,6 +110,81 @@ PROPS = {
         outside="tables longer than the bounds; dispatch through Mp4Reader's track map (several tracks); stsc first_sample derivation is decided in C04/C05's stsc harness",
         assumptions=COMMON_ASSUME + ["tables are mutually consistent by construction (the property's precondition)",
                                      "chunk offsets < 2^62 (a consistent file keeps chunks inside the file)"],
+    ),
+    "C06": dict(
+        design_ref="DESIGN.md 5.6",
+        level_text="Every leaf / table decoder is run on an arbitrary byte buffer with an arbitrary declared size (up to the buffer = file length) and "
+                   "every Mp4Track accessor on arbitrary, not necessarily consistent tables as the decoders can produce them; Kani's implicit checks "
+                   "(arithmetic overflow, division by zero, index, unwrap/expect, explicit panic) are the property: any reachable panic in the dev "
+                   "profile is a counterexample, and a unit with no failing check behaves identically in release.",
+        level_note="Unit level. Decoders that size a heap buffer from the declared size get one harness per concrete size; NAL-carrying records (avcC, hvcC), esds and containers are not run on arbitrary bytes (symbolic-size heap objects / nested symbolic loops do not get through CBMC). JSON/summary rendering outside. " + GLUE,
+        bounds="buffers 24..128 bytes (largest two-entry encoding of the type + 8), size <= buffer length, tables <= 2-3 entries with full-range values, sample ids: all u32, sample sizes <= 4 in read_sample",
+        outside="to_json/summary/Debug, avcC/hvcC/esds/container decoders on arbitrary bytes, stack depth, allocation failure aborts (C08), Mp4Reader accessors (duration, metadata dispatch)",
+        assumptions=COMMON_ASSUME + ["declared box size <= file length (the reader's documented precondition)", "stsc first_sample as derived by the decoder"],
+    ),
+    "C07": dict(
+        design_ref="DESIGN.md 5.7",
+        level_text="What a solver can decide is iteration and stream-operation counts, not seconds: every decoder runs through a harness reader "
+                   "that counts read/seek calls (asserted <= 4*size+16) with every loop bounded by an unwinding assertion derived from the buffer "
+                   "size; container loops run on small arbitrary buffers with at most one iteration per 8 bytes; the intra-chunk lookup loop runs on symbolic samples_per_chunk.",
+        level_note="Unit level; CPU time itself is outside. The top-level `s == 0` guard is reader glue. " + GLUE,
+        bounds="as C06 for decoders; containers udta/edts/dinf on 24 bytes (quick), mvex/traf on 32 bytes (thorough)",
+        outside="CPU time, nested containers beyond 32 bytes, top-level loop",
+        assumptions=COMMON_ASSUME + ["declared box size <= buffer length"],
+    ),
+    "C08": dict(
+        design_ref="DESIGN.md 5.8",
+        level_text="std::alloc::{alloc, alloc_zeroed, realloc} are replaced (Kani -Z stubbing) by checking stubs, so the size of every heap request the "
+                   "real decoder / read_sample code makes becomes a symbolic expression over the input and the solver proves it <= 4n+64 per request "
+                   "and <= 16n+256 in total for an n-byte input, or returns the input.",
+        level_note="Requests, not live bytes (dealloc is not credited). Unit level as C06. " + GLUE,
+        bounds="as C06",
+        outside="peak live memory, allocator overhead, avcC/hvcC/esds/containers on arbitrary bytes, top-level `s > file size` check",
+        stubs=["std::alloc::alloc -> common::alloc::alloc_stub", "std::alloc::alloc_zeroed -> alloc_zeroed_stub", "std::alloc::realloc -> realloc_stub (each asserts the size, then allocates through the System allocator model)"],
+        assumptions=COMMON_ASSUME + ["declared box size <= buffer length"],
+    ),
+    "C09": dict(
+        design_ref="DESIGN.md 5.9",
+        level_text="Mp4Track's fragment branches (find_traf_idx_and_sample_idx, sample_size/offset/time/rendering offset, sample_count) run on trafs "
+                   "built directly, per shape (1-2 fragments x 1-2 samples x base-data-offset present | default-base-is-moof x tfhd default duration x "
+                   "per-sample durations x composition offsets x data offset), all values symbolic (u64 decode times and bases, negative data offsets), "
+                   "against a reference written from 14496-12 8.8.",
+        level_note="Per track on parsed fragments; attaching trafs / moof offsets to tracks is reader glue. " + GLUE,
+        bounds="<= 2 fragments x <= 2 samples, bases / decode times < 2^62, all u32 durations / sizes / cts, i32 data offsets, sample id 1..=count+1",
+        outside="more fragments / longer runs, traf without trun or tfdt, attaching fragments in read_header / read_fragment_header",
+        assumptions=COMMON_ASSUME + ["runs carry per-sample sizes and a tfdt (the property's precondition)"],
+    ),
+    "C13": dict(
+        design_ref="DESIGN.md 5.13",
+        level_text="The 4 GiB boundaries are reached symbolically: the output is a position-only sparse stream whose start offset and payload gap are "
+                   "symbolic (< 2^40), so below / at / above 2^32 are values of one query: mdat size patch of the real Mp4Writer, chunk offset + "
+                   "co64/stco choice of the real track writer, header versions vs durations, and BoxHeader write->read over sizes 8..2^62.",
+        level_note="mvhd's version switch inside Mp4Writer::write_end needs a track in the writer, which does not get through CBMC; it is three lines and is not covered.",
+        bounds="start offset and gap < 2^40, K<=2 samples with full-range u32 durations, one chunk",
+        outside="mvhd version in Mp4Writer::write_end, several chunks, reading the result back with Mp4Reader",
+        assumptions=COMMON_ASSUME + ["the sparse stream stands for a seekable file (positions only)"],
+    ),
+    "C14": dict(
+        design_ref="DESIGN.md 5.14",
+        level_text="Symbolic TrackConfig (u16 dimensions, timescale >= 1, 3 symbolic lowercase letters, symbolic SPS/PPS bytes, every audio object type x "
+                   "frequency index x channel configuration, symbolic bitrate) through the real Mp4TrackWriter::new and back out through the real "
+                   "Mp4Track accessors; the AAC sample entry additionally through the real encoder and decoder; Mp4Config through write_start/"
+                   "write_end and the real ftyp/mvhd decoders; reported durations within one tick.",
+        level_note="In-memory + wire round trip of the boxes involved (C04 covers tkhd/mdhd/hdlr/stsd codecs). " + GLUE,
+        bounds="SPS 5 bytes, PPS 2 bytes, 0/2 compatible brands, K<=2 samples (3 thorough) with durations and timescales < 2^20 for the one-tick check",
+        outside="reopening with Mp4Reader, HEVC/VP9 codec parameter contents (the config only carries dimensions)",
+        assumptions=COMMON_ASSUME,
+    ),
+    "C17": dict(
+        design_ref="DESIGN.md 5.17",
+        level_text="Kani's implicit panic checks on the muxer units with no domain restriction: Mp4TrackWriter::new for parameter sets of 0..5 bytes, "
+                   "languages of 0..4 bytes (incl. non-ASCII), any timescale / dimensions / ids; write_sample x K<=2 with full-range sample fields and "
+                   "timescales (0 included) + flush; write_end with any 32-bit maximal sample size + encoding of the touched sample entry; Mp4Writer "
+                   "with no tracks: any track id, write_end.",
+        level_note="Mp4Writer with >= 1 track does not get through CBMC (excluded x_ harnesses kept for reference); its dispatch is a bounds-checked Vec index.",
+        bounds="K<=2 (3 thorough) calls, payload <= 2 bytes, parameter sets <= 5 bytes",
+        outside="Mp4Writer::write_sample with tracks present, very large payloads as real Bytes values",
+        assumptions=COMMON_ASSUME,
     ),
     "C16": dict(
         design_ref="DESIGN.md 5.16",
